@@ -110,3 +110,40 @@ func ZZ_C16_CopyUnknown() {
 	}
 	zzverif.Reach("done")
 }
+
+// ZZ_C16_CopyBig: the unknown field is a payload of N bytes (around the 65535/65536 offset
+// boundary), written after a small known field; tags symbolic, so every tag order and both table
+// forms are covered. Reading under the new version and Copy through a writer that knows only the
+// small field both preserve the big unknown field.
+func ZZ_C16_CopyBig() {
+	n := zzverif.Param("N")
+	ta, tb := zzverif.Uint16(), zzverif.Uint16()
+	zzverif.Assume(ta != tb)
+	va, nva := zzverif.Byte(), zzverif.Byte()
+	big := zzverif.BytesSparse(n, 4)
+	w := New(false)
+	src := w.Message()
+	zzverif.Assert(src.Field(ta).Byte(va) == nil, "write-ok")
+	zzverif.Assert(src.Field(tb).Bytes(big) == nil, "write-ok")
+	sb, err := src.Build()
+	zzverif.Assert(err == nil, "build-ok")
+	sm, _, err := types.ParseMessage(sb)
+	zzverif.Assert(err == nil, "parse-ok")
+	r, err := sm.ByteErr(ta)
+	zzverif.Assert(err == nil && r == va, "common-field-unchanged")
+
+	w2 := New(false)
+	dst := w2.Message()
+	zzverif.Assert(dst.Field(ta).Byte(nva) == nil, "write-ok")
+	zzverif.Assert(dst.Merge(sm) == nil, "merge-ok")
+	out, err := dst.Build()
+	zzverif.Assert(err == nil, "build-ok")
+	pm, sz, err := types.ParseMessage(out)
+	zzverif.Assert(err == nil && sz == len(out), "result-parses-completely")
+	r2, err := pm.ByteErr(ta)
+	zzverif.Assert(err == nil && r2 == nva, "known-field-keeps-destination-value")
+	rb, err := pm.BytesErr(tb)
+	zzverif.Assert(err == nil && len(rb) == n, "unknown-field-preserved-length")
+	zzverif.Assert(rb[0] == big[0] && rb[n-1] == big[n-1] && rb[n/2] == big[n/2], "unknown-field-preserved")
+	zzverif.Reach("done")
+}
